@@ -129,6 +129,7 @@ int main (int argc, char **argv)
     if (strstr (levels, "L2")) pgen_L2 (on_prog, NULL, classes);
     if (strstr (levels, "L3")) pgen_L3 (on_prog, NULL, PG_INT);
     if (strstr (levels, "L5")) pgen_L5 (on_prog, NULL);
+    if (strstr (levels, "LB")) pgen_LB (on_prog, NULL);
   }
   fprintf (f_calls, "const VCallEntry v_calls[] = {\n");
   for (i = 0; i < nnames; i++) fprintf (f_calls, "  { \"%s\", call_%s },\n", names[i], names[i]);
